@@ -91,6 +91,9 @@ func workerDeadline(run *ev.Run, quickS, thoroughS int) time.Time {
 }
 
 // fanout runs n workers of this binary and merges their outputs.
+// extraWorkerEnv, when set, adds environment variables for worker i (C44: GORACE log path).
+var extraWorkerEnv func(i int) []string
+
 func fanout(run *ev.Run) *shardOut { return fanoutN(run, 0) }
 
 // fanoutN runs exactly n workers when n > 0 (a check whose workers are split into fixed
@@ -125,7 +128,11 @@ func fanoutN(run *ev.Run, fixed int) *shardOut {
 	for i := 0; i < n; i++ {
 		go func(i int) {
 			cmd := exec.Command(bin, os.Args[1:]...)
-			cmd.Env = append(os.Environ(), "VERIF_BIN="+bin, fmt.Sprintf("VERIF_SHARD=%d/%d", i, n), fmt.Sprintf("VERIF_SHARD_OUT=%s/%d.json", dir, i), "GOMAXPROCS=2")
+			cmd.Env = append(os.Environ(), "VERIF_BIN="+bin)
+			if extraWorkerEnv != nil {
+				cmd.Env = append(cmd.Env, extraWorkerEnv(i)...)
+			}
+			cmd.Env = append(cmd.Env, fmt.Sprintf("VERIF_SHARD=%d/%d", i, n), fmt.Sprintf("VERIF_SHARD_OUT=%s/%d.json", dir, i), "GOMAXPROCS=2")
 			out, err := cmd.CombinedOutput()
 			ch <- res{i, err, string(out)}
 		}(i)
@@ -243,6 +250,8 @@ func main() {
 		c33()
 	case "C31":
 		c31()
+	case "C44":
+		c44()
 	case "C45":
 		if len(os.Args) > 2 && os.Args[2] == "debug" {
 			debug45()
